@@ -65,6 +65,8 @@ def planted(cellname, pairname, copies, seed, decoys=3, straddle=True, noise=0.0
     rnd = random.Random(seed)
     se, sx, _, _ = PAIRS[pairname]
     case = geo.build(cellname, None, copies, rnd, decoys=decoys, straddle=straddle, pattern_override=(se, sx), noise=noise)
+    if seed % 2 == 1:
+        gen.add_unused_type(case['structure'])     # every second planted structure carries a trailing atom type that no atom uses
     if len(se) == 1:
         # every atom of that element is an occurrence of a one-atom pattern
         case['planted'] = [(i,) for i, e in enumerate(case['structure'].elements) if e == se]
